@@ -848,6 +848,39 @@ func (env *Env) elabCall(x ECall) (Val, error) {
 		srt := P.sorts.sortOf(t)
 		h := env.st.getHeap(P, "B$"+typeKey(t), fmt.Sprintf("(Array Int %s)", srt))
 		return Val{T: app(srt, "select", h, app("Int", "i_val", v.T)), GoT: t}, nil
+	case "asint64": // Go conversion int64(x) of a 64-bit unsigned value (two's complement wrap)
+		v, err := env.elab(x.Args[0])
+		if err != nil {
+			return Val{}, err
+		}
+		return Val{T: app("Int", "swrap", v.T, Term{"18446744073709551616", "Int"}), GoT: types.Typ[types.Int64]}, nil
+	case "oldarrays_kept": // every backing array (of this slice's element type) that existed at entry is unchanged
+		if env.old == nil || env.st == nil {
+			return Val{}, fmt.Errorf("oldarrays_kept needs old and current state")
+		}
+		a, err := env.elab(x.Args[0])
+		if err != nil {
+			return Val{}, err
+		}
+		u, ok := a.GoT.Underlying().(*types.Slice)
+		if !ok {
+			return Val{}, fmt.Errorf("oldarrays_kept of non-slice")
+		}
+		comp, sort := elemComp(u.Elem()), elemSort(P, u.Elem())
+		h0, h1 := env.old.getHeap(P, comp, sort), env.st.getHeap(P, comp, sort)
+		if h0.S == h1.S {
+			return Val{T: tTrue}, nil
+		}
+		return Val{T: Term{fmt.Sprintf("(forall ((fa Int)) (! (=> (< fa %s) (= (select %s fa) (select %s fa))) :pattern ((select %s fa))))", env.old.next.S, h1.S, h0.S, h1.S), "Bool"}}, nil
+	case "fresharr": // the slice's backing array was allocated by this invocation (or the slice is nil)
+		v, err := env.elab(x.Args[0])
+		if err != nil {
+			return Val{}, err
+		}
+		if env.old == nil {
+			return Val{}, fmt.Errorf("fresharr needs the entry state")
+		}
+		return Val{T: or(eq(app("Int", "s_arr", v.T), Term{"0", "Int"}), app("Bool", ">=", app("Int", "s_arr", v.T), env.old.next))}, nil
 	case "samearr": // two slices share their backing array
 		a, err := env.elab(x.Args[0])
 		if err != nil {
